@@ -49,11 +49,11 @@ def delete_queues(job: DeleteQueuesJob):
     if not queue_branches:
         raise exceptions.JobSuccess()
 
-    queue_branch = queue_branches[0]
-    if queue_branch.minor is None:
-        repo.checkout(f"development/{queue_branch.major}")
-    else:
-        repo.checkout(f"development/{queue_branch.major}.{queue_branch.minor}")
+    # Leave the q/* branches before deleting them. The first queue branch is
+    # not always a development queue (a hotfix queue has no
+    # 'development/<major>.<minor>' counterpart): detach HEAD from one of them.
+    queue_branches[0].checkout()
+    repo.cmd('git checkout --detach')
 
     for branch in queue_branches:
         branch.remove(do_push=False)
